@@ -35,7 +35,7 @@ def tSpan (segs : List (Seg α)) : Option (α × α) :=
 
 /-- the membership test of one segment -/
 def hit (t : α) (s : Seg α) : Bool :=
-  decide (inSeg t (segLeft s.xold s.h) (segRight s.xold s.h) tol)
+  decide (inSeg t (segLeft s.xold s.h) (segRight s.xold s.h) (tol (segLeft s.xold s.h)) (tol (segRight s.xold s.h)))
 
 /-- `find_segment`: the first segment whose closed interval (± tol) contains `t` -/
 def findSeg (segs : List (Seg α)) (t : α) : Option (Seg α) := segs.find? (hit t)
@@ -66,7 +66,7 @@ def sol (cs : Option (List (Seg α))) (t : α) : Res :=
     match tSpan segs with
     | none => .notEnabled
     | some (start, e) =>
-      if outside t (spanLo start e) (spanHi start e) then .outOfRange
+      if outside t (spanLo start e) (spanHi start e) (tol (spanLo start e)) (tol (spanHi start e)) then .outOfRange
       else match findSeg segs t with
         | some s => .ok s.id
         | none => .outOfRange
@@ -87,7 +87,7 @@ def solMany (cs : Option (List (Seg α))) (ts : List α) : ManyRes :=
     match tSpan segs with
     | none => .notEnabled
     | some (start, e) =>
-      if ts.any (fun t => decide (outside t (spanLo start e) (spanHi start e))) then .outOfRange
+      if ts.any (fun t => decide (outside t (spanLo start e) (spanHi start e) (tol (spanLo start e)) (tol (spanHi start e)))) then .outOfRange
       else match ts.mapM (fun t => (findSeg segs t).map (·.id)) with
         | some ids => .ok ids
         | none => .panic
